@@ -279,7 +279,7 @@ def run(tier):
                 tasks.append((d, items[k : k + 25]))
     for part in harness.pmap(task, harness.rotate(tasks)):
         rep.merge(part)
-    lat = [(d, ost, kids, age, 1.0 if thorough else 5.0) for d in (dates if thorough else dates[-3:]) for ost in (False, True) for kids in (0, 1, 2, 3, 5)
+    lat = [(d, ost, kids, age, 1.0 if thorough else 5.0) for d in (dates[::3] if thorough else dates[-3:]) for ost in (False, True) for kids in (0, 1, 2, 3, 5)
            for age in (22, 40)]
     for part in harness.pmap(task_lattice, harness.rotate(lat)):
         rep.merge(part)
